@@ -154,7 +154,8 @@ class HistGen:
         r = self.rng
         cid = self.new_id()
         form = r.choice(["pairs", "pairs", "tuplepairs", "listpairs",
-                         "mapping", "kwargs", "omd", "copyctor"])
+                         "mapping", "kwargs", "omd", "copyctor",
+                         "iterpairs", "itemsobj"])
         cls = r.choice(self.classes)
         if form == "copyctor":
             if not self.m.reg:
@@ -218,12 +219,12 @@ class HistGen:
             if x < 0.6:
                 return ["extend", cid, "twoargs", 0]
         form = r.choice(["pairs", "tuplepairs", "listpairs", "mapping",
-                         "kwargs", "omd"])
+                         "kwargs", "omd", "iterpairs", "itemsobj"])
         return ["extend", cid, form, self.pairs(cid, 3)]
 
     def g_update(self, cid, mc, fail):
         form = self.rng.choice(["pairs", "tuplepairs", "listpairs",
-                                "mapping", "kwargs"])
+                                "mapping", "kwargs", "iterpairs"])
         return ["update", cid, form, self.pairs(cid, 3)]
 
     def _ins_payload(self, cid, fail):
